@@ -18,7 +18,7 @@ COQ_DIR = os.path.join(os.path.dirname(os.path.dirname(os.path.abspath(__file__)
 BUILD = os.path.join(os.path.dirname(COQ_DIR), "build")
 
 HEADER = """Require Import Boario.Base.QcLib Boario.Base.Vec Boario.Model.Econ Boario.Corr.Check.
-Require Import Boario.Model.Events Boario.Corr.CheckEv.
+Require Import Boario.Model.Events Boario.Corr.CheckEv Boario.Model.Init Boario.Model.Tracker Boario.Model.Ingest Boario.Corr.CheckInit.
 Open Scope Qc_scope.
 Definition q (m e : Z) : Qc := of_me m e.
 Arguments q (_ _)%Z.
@@ -172,6 +172,10 @@ def econ_checks(cf, P, init, step, sid, want=None):
         if expr is not None:
             cf.check(tag(ob), expr)
 
+    for key in ("prod_pre", "ord_pre"):
+        if key in step:
+            pre_ = step[key]
+            guarded("dtot.coherent", lambda: f"chk_dtot {P} {pre_['dem'].shape[1]}%nat {cf.mat(pre_['dem'])} {cf.vec(pre_['dtot'])}")
     if "over_pre" in step and "over_post_alpha" in step:
         pre = step["over_pre"]
         guarded("overprod", lambda: f"chk_overprod {P} {cf.vec(pre['alpha'])} {cf.vec(pre['dtot'])} "
